@@ -214,6 +214,47 @@ func runC02(w *World, r *Report) {
 		}
 	}
 
+	// fromCopy: the value is the result of copyDropTypeMsg on every path reaching `at` (the variable `msg` is also
+	// assigned in the other drop arm: only the store that reaches this use counts)
+	var fromCopy func(v ssa.Value, at ssa.Instruction, d int) bool
+	fromCopy = func(v ssa.Value, at ssa.Instruction, d int) bool {
+		if d > 5 {
+			return false
+		}
+		switch x := v.(type) {
+		case *ssa.MakeInterface:
+			return fromCopy(x.X, at, d+1)
+		case *ssa.ChangeInterface:
+			return fromCopy(x.X, at, d+1)
+		case *ssa.ChangeType:
+			return fromCopy(x.X, at, d+1)
+		case *ssa.Call:
+			return callSym(x.Common()).name == "copyDropTypeMsg"
+		case *ssa.UnOp:
+			if x.Op == token.MUL {
+				if al, ok := fam.canon(x.X).(*ssa.Alloc); ok {
+					sts := latestDominating(fam.stores[al], x)
+					if len(sts) == 0 {
+						return false
+					}
+					for _, st := range sts {
+						if !fromCopy(st.Val, st, d+1) {
+							return false
+						}
+					}
+					return true
+				}
+			}
+		case *ssa.Phi:
+			for _, e := range x.Edges {
+				if !fromCopy(e, at, d+1) {
+					return false
+				}
+			}
+			return len(x.Edges) > 0
+		}
+		return false
+	}
 	// ---------- R3 copy before write
 	for _, arm := range []string{"DropCollection", "DropPartition"} {
 		cons := fmt.Sprintf("(*replicateChannelHandler).handlePack | %s arm writes only the copy", arm)
@@ -256,7 +297,7 @@ func runC02(w *World, r *Report) {
 			}
 			for _, c := range cands {
 				ta, isTA := c.(*ssa.TypeAssert)
-				if !isTA || ta.CommaOk || !fromCall(ta.X, "copyDropTypeMsg") {
+				if !isTA || ta.CommaOk || !fromCopy(ta.X, ta, 0) {
 					okAll = false
 				}
 			}
